@@ -275,7 +275,7 @@ class Linked(SubCheck):
         "iteration order of a Python set of Read objects, i.e. object addresses - a C16 matter, not asserted here)",
     ]
     stubs = Decide.stubs
-    required_cover = ["cloud pooled", "same barcode but too far apart", "linked reads ignored", "pooling changes the decision", "BX fall-back tags an alignment", "BX fall-back out of range"]
+    required_cover = ["cloud pooled", "same barcode but too far apart", "linked reads ignored", "pooled cloud of two informative reads tagged", "BX fall-back tags an alignment", "BX fall-back out of range"]
     max_decisions = 20000
 
     def shapes(self, tier):
@@ -347,9 +347,8 @@ class Linked(SubCheck):
             _judge(e, both if pooled else sc[r], None if got[r] is None else (got[r][0], got[r][2]), ctx, "read r%d (%s)" % (r, "pooled barcode cloud" if pooled else "alone"))
         if pooled:
             e.check((got[0] is None) == (got[1] is None) and (got[0] is None or (got[0][0], got[0][2]) == (got[1][0], got[1][2])), "reads of one barcode cloud received different tags", ctx)
-            alone = [None, None]
             if got[0] is not None and sc[0] and sc[1]:
-                e.cover("pooling changes the decision")  # at least reachable: both reads informative and pooled
+                e.cover("pooled cloud of two informative reads tagged")
         # clouds recorded for the BX fall-back: every entry belongs to a tagged read with that barcode
         for tag, entries in bx.items():
             for st, ht, ps in entries:
